@@ -12,8 +12,18 @@
                                           (restrict: EINVAL iff the set misses the ALLOWED cpuset; kinds are cut by the
                                            new ROOT cpuset, Hw.Attr.CpuKindsAllowed)
    by <cs|NULL> <flags> | nr <flags> | info <id> <flags>                                        -> r=..
+
+   rawset <idx> <forced> <eff> | rawswap <i> <j> | rawrank      private writes into the array / direct rank   -> rc=.. obs
+
+   A7: `env` may occur anywhere (the harness does the setenv, the C code calls getenv in every rank).  The driver tracks the
+   strategy of the last call that ranked the array (`tagStep` / `ranks` of Hw.Attr.CpuKindsStrategies) and appends
+   " SPEC-VIOLATION.." to an observation whose array is not `Ranked` w.r.t. that strategy or whose last-pair info summaries
+   differ from the fold summaries (`specOK`; both are theorems, so the marker never appears unless model, driver and
+   theorems drift apart; the C side never prints it).  After an `ireg` (internal registration, no ranking) the check is
+   suspended until the next call that ranks.
 -/
 import Hw.Attr.CpuKindsAllowed
+import Hw.Attr.CpuKindsStrategies
 import Driver.Util
 namespace Driver.CpuKindsEng
 open Hw Hw.CpuKinds Driver
@@ -21,6 +31,8 @@ open Hw Hw.CpuKinds Driver
 structure DState where
   strat : Strategy := .dflt
   t : TState := {}
+  tag : Strategy := .dflt      -- strategy in force at the last call that ranked the array
+  dirty : Bool := false        -- an `ireg` appended kinds without ranking
 
 def DState.st (d : DState) : State := d.t.st
 def DState.setSt (d : DState) (st : State) : DState := { d with t := { d.t with st := st } }
@@ -63,15 +75,24 @@ def showObs (t : TState) : String :=
     " ;; alloc=" ++ toString st.alloc ++ " stale=" ++
     ",".intercalate ((stripZeros st.stale).map b01)
 
+/-- the spec cross-check appended to every observation of a state-changing call -/
+def fin (d : DState) (out : String) : DState × String :=
+  (d, if d.dirty || specOK d.tag d.t.st.kinds then out
+      else out ++ " SPEC-VIOLATION:not-ranked-under-" ++ toString (repr d.tag))
+
+/-- bookkeeping after a public call `op` that ran under the strategy in force -/
+def DState.after (d : DState) (op : Op) (st' : State) : DState :=
+  { (d.setSt st') with tag := tagStep d.st d.tag (d.strat, op), dirty := d.dirty && !(ranks d.st (d.strat, op)) }
+
 def step (d : DState) (line : String) : DState × String :=
   let bad := (d, "bad-op")
   match tokens line with
   | ["env", s] => ({ d with strat := parseStrategy s }, "ok")
   | ["init", r] => match parseHex r with
-      | some r => let t := tinit r false; ({ d with t := t }, showObs t)
+      | some r => let t := tinit r false; ({ d with t := t, tag := .dflt, dirty := false }, showObs t)
       | none => bad
   | ["initd", r] => match parseHex r with
-      | some r => let t := tinit r true; ({ d with t := t }, showObs t)
+      | some r => let t := tinit r true; ({ d with t := t, tag := .dflt, dirty := false }, showObs t)
       | none => bad
   | ["allow", cs, fl] => match parseCs cs, parseNat fl with
       | some cs, some fl => let (t', e) := allow d.t cs fl
@@ -83,8 +104,8 @@ def step (d : DState) (line : String) : DState × String :=
           | some c => fl == 0 && c != 0 && staleHit d.st c (if f < 0 then -1 else f) infos true
           | none => false
         let (st', e) := register d.strat d.st cs f infos fl
-        let d' := d.setSt st'
-        (d', "rc=" ++ errStr e ++ " stalehit=" ++ b01 hit ++ " " ++ showObs d'.t)
+        let d' := d.after (.register cs f infos fl) st'
+        fin d' ("rc=" ++ errStr e ++ " stalehit=" ++ b01 hit ++ " " ++ showObs d'.t)
       | _, _, _, _ => bad
   | "regskip" :: cs :: f :: fl :: infos => match parseCs cs, parseInt f, parseNat fl, infos.mapM parseInfo with
       | some (some c), some f, some fl, some infos =>
@@ -95,7 +116,7 @@ def step (d : DState) (line : String) : DState × String :=
       | some (some c), some f, some fl, some infos =>
         let hit := c != 0 && fl / 2 == 0 && staleHit d.st c f infos (fl % 2 == 1)
         let (st', e) := internalRegister d.st c f infos fl
-        let d' := d.setSt st'
+        let d' := { (d.setSt st') with dirty := d.dirty || decide (e = .ok) }
         (d', "rc=" ++ errStr e ++ " stalehit=" ++ b01 hit ++ " " ++ showObs d'.t)
       | _, _, _, _ => bad
   | "iregskip" :: cs :: f :: fl :: infos => match parseCs cs, parseInt f, parseNat fl, infos.mapM parseInfo with
@@ -105,12 +126,28 @@ def step (d : DState) (line : String) : DState × String :=
       | _, _, _, _ => bad
   | ["restrict", s] => match parseHex s with
       | some s => let (t', e) := restrictT d.strat d.t s
-                  ({ d with t := t' }, "rc=" ++ errStr e ++ " " ++ showObs t')
+                  -- `ranks` of a restrict = "a kind disappeared" (restrictT refuses more sets than `restrict`: compare lengths)
+                  let rk := decide (t'.st.kinds.length < d.st.kinds.length)
+                  fin { d with t := t', tag := if rk then d.strat else d.tag, dirty := d.dirty && !rk }
+                    ("rc=" ++ errStr e ++ " " ++ showObs t')
       | none => bad
-  | ["dup"] => let d' := d.setSt (dup d.st); (d', "rc=ok " ++ showObs d'.t)
-  | ["xml"] => let d' := d.setSt (xmlReload d.strat d.st); (d', "rc=ok " ++ showObs d'.t)
-  | ["xmlv2"] => let d' := d.setSt (xmlReload d.strat d.st); (d', "rc=ok " ++ showObs d'.t)     -- same transfer through the v2 format
-  | ["refresh"] => let d' := d.setSt (refresh d.strat d.st); (d', "rc=ok " ++ showObs d'.t)
+  | ["dup"] => let d' := d.after .dup (dup d.st); fin d' ("rc=ok " ++ showObs d'.t)
+  | ["xml"] => let d' := d.after .xml (xmlReload d.strat d.st); fin d' ("rc=ok " ++ showObs d'.t)
+  | ["xmlv2"] => let d' := d.after .xml (xmlReload d.strat d.st); fin d' ("rc=ok " ++ showObs d'.t)     -- same transfer through the v2 format
+  | ["refresh"] => let d' := d.after .refresh (refresh d.strat d.st); fin d' ("rc=ok " ++ showObs d'.t)
+  | ["rawset", idx, f, e] => match parseNat idx, parseInt f, parseInt e with
+      | some idx, some f, some e =>
+        let (st', r) := rawSet d.st idx f e
+        let d' := { (d.setSt st') with dirty := d.dirty || decide (r = .ok) }
+        (d', "rc=" ++ errStr r ++ " " ++ showObs d'.t)
+      | _, _, _ => bad
+  | ["rawswap", i, j] => match parseNat i, parseNat j with
+      | some i, some j =>
+        let (st', r) := rawSwap d.st i j
+        let d' := { (d.setSt st') with dirty := d.dirty || decide (r = .ok) }
+        (d', "rc=" ++ errStr r ++ " " ++ showObs d'.t)
+      | _, _ => bad
+  | ["rawrank"] => let d' := d.after .refresh (rawRank d.strat d.st); fin d' ("rc=ok " ++ showObs d'.t)
   | ["by", cs, fl] => match parseCs cs, parseNat fl with
       | some cs, some fl => (d, "r=" ++ resStr (getByCpuset d.st cs fl))
       | _, _ => bad
